@@ -1,11 +1,19 @@
 (* C12 — flip, roll and quarter-turn rotation are exact coordinate maps with inverses.
-   PROVED: the rotation primitive used by roll sends index i to (i + shift) mod n for every integer shift of any
-   magnitude and sign and keeps the length; flipping with no axis reverses the flat order; an axis outside the rank
-   is an error value; rot90's guards (rank >= 2, exactly two axes) and the k = 0 (mod 4) identity; all results well
-   formed.  NOT YET PROVED (exhaustively checked by the correspondence run, incl. the inverse laws flip-flip,
-   roll(s)-roll(-s) and k + (4-k) quarter turns executed on the implementation): the per-axis coordinate statements
-   for flip / roll on inner axes of n-d arrays and the decomposition of rot90 into single turns. *)
-From ArrRs Require Import Index Axis Axis_proofs Reorder Reorder_proofs.
+   PROVED, for arrays of every rank with positive extents and every axis in either spelling:
+   - C12_flip_axis: flipping along one axis puts at coordinate c the element from c with the axis entry mirrored
+     (n-1-i); every other coordinate entry is unchanged;  C12_flip_axes: a list of axes is the successive flips;
+   - C12_roll_axis: rolling along one axis (rank >= 2) by ANY integer shift puts at c the element from c with the
+     axis entry moved back by the shift modulo the axis length;
+   - both through the shared per-axis step of the code (C12_axis_step: slabs for axis 0, lanes for the last axis,
+     recursion into the leading slabs for inner axes) proved once for any 1-D rearrangement with an index map;
+   - the rotation primitive sends index i to (i + shift) mod n for every integer shift; flipping with no axis
+     reverses the flat order; an axis outside the rank is an error value; rot90's guards (rank >= 2, exactly two axes)
+     and the k = 0 (mod 4) identity; all results well formed.
+   NOT YET PROVED (exhaustively checked by the correspondence run, incl. the inverse laws flip-flip,
+   roll(s)-roll(-s) and k + (4-k) quarter turns executed on the implementation): roll with several (shift, axis)
+   pairs (the per-axis accumulation), roll of rank-1 arrays / with no axis as an array-level statement, and the
+   coordinate statement for rot90 (it is a flip composed with a transpose, both of which have their theorems). *)
+From ArrRs Require Import Index Axis Axis_proofs Broadcast_proofs Reorder Reorder_proofs Reorder_axis.
 
 Theorem C12_rotate : forall (A : Type) (d : A) (l : list A) (s : Z) i, i < length l ->
   nth (Z.to_nat ((Z.of_nat i + s) mod Z.of_nat (length l))) (rotate l s) d = nth i l d.
@@ -39,6 +47,51 @@ Theorem C12_results_wf_partial : forall (T : Type) (dflt : T) (a : arr T) r,
 Proof.
   intros. split; [intros; eapply flip_wf; eauto|]. split; [intros; eapply roll_wf; eauto | intros; eapply rot90_wf; eauto].
 Qed.
+
+(* the shared per-axis step as a coordinate map, for any 1-D rearrangement h with index map sigma *)
+Theorem C12_axis_step : forall (T : Type) (dflt : T) (h : forall A : Type, list A -> list A) (sigma : nat -> nat -> nat),
+  (forall A (l : list A), length (h A l) = length l) ->
+  (forall A (l : list A) d i, i < length l -> nth i (h A l) d = nth (sigma (length l) i) l d) ->
+  (forall n i, i < n -> sigma n i < n) ->
+  forall ax sh es, pos_shape sh -> ax < length sh -> length es = prod sh ->
+  axis_apply dflt h es sh ax = Ok (axis_perm dflt sigma es sh ax).
+Proof. exact @axis_apply_spec. Qed.
+
+Theorem C12_axis_step_get : forall (T : Type) (dflt : T) (sigma : nat -> nat -> nat) ax sh es c,
+  pos_shape sh -> ax < length sh -> length es = prod sh -> in_range sh c ->
+  nth (flat sh c) (axis_perm dflt sigma es sh ax) dflt = nth (flat sh (upd c ax (sigma (nth ax sh 0) (nth ax c 0)))) es dflt.
+Proof. exact @axis_apply_get. Qed.
+
+Theorem C12_flip_axis : forall (T : Type) (dflt : T) (a : arr T) z,
+  wf a -> pos_shape (shape a) -> (Z.of_nat (ndim a) < two64)%Z -> axis_ok (ndim a) z ->
+  let ax := norm_nat (ndim a) z in
+  exists R, flip dflt a (Some [z]) = Ok R /\ wf R /\ shape R = shape a /\
+    forall c, in_range (shape a) c ->
+      get dflt R c = get dflt a (upd c ax (nth ax (shape a) 0 - 1 - nth ax c 0)).
+Proof. exact @flip_one_axis. Qed.
+
+Theorem C12_flip_axes : forall (T : Type) (dflt : T) (a : arr T) z l,
+  wf a -> pos_shape (shape a) -> (Z.of_nat (ndim a) < two64)%Z -> axis_ok (ndim a) z ->
+  Forall (axis_ok (ndim a)) l ->
+  flip dflt a (Some (z :: l)) = (let* a1 := flip dflt a (Some [z]) in flip dflt a1 (Some l)).
+Proof. exact @flip_cons. Qed.
+
+Theorem C12_roll_axis : forall (T : Type) (dflt : T) (a : arr T) s z,
+  wf a -> pos_shape (shape a) -> (Z.of_nat (ndim a) < two64)%Z -> axis_ok (ndim a) z -> 2 <= ndim a ->
+  let ax := norm_nat (ndim a) z in
+  exists R, roll dflt a [s] (Some [z]) = Ok R /\ wf R /\ shape R = shape a /\
+    forall c, in_range (shape a) c ->
+      get dflt R c = get dflt a (upd c ax (rot_src s (nth ax (shape a) 0) (nth ax c 0))).
+Proof. exact @roll_one_axis. Qed.
+
+Theorem C12_rot_src_def : forall s n i, rot_src s n i = Z.to_nat ((Z.of_nat i - s) mod Z.of_nat n).
+Proof. reflexivity. Qed.
+
+Example C12_axis_nonvacuous :
+  flip 0%Z (mk (map Z.of_nat (seq 0 12)) [2;3;2]) (Some [(-2)%Z]) = Ok (mk [4;5;2;3;0;1;10;11;8;9;6;7]%Z [2;3;2]) /\
+  roll 0%Z (mk (map Z.of_nat (seq 0 12)) [2;3;2]) [(-7)%Z] (Some [1%Z]) = Ok (mk [2;3;4;5;0;1;8;9;10;11;6;7]%Z [2;3;2]) /\
+  rot_src (-7) 3 0 = 1.
+Proof. repeat split; vm_compute; reflexivity. Qed.
 
 Example C12_nonvacuous :
   rotate [0;1;2;3;4]%Z 7%Z = [3;4;0;1;2]%Z /\ rotate [0;1;2;3;4]%Z (-7)%Z = [2;3;4;0;1]%Z /\
